@@ -1,0 +1,317 @@
+// Verification hooks. Compiled only with `--cfg pnordahl_monorail_verif`; none of
+// this exists in a normal build. The functions here are thin, plain-data wrappers
+// around crate-internal APIs so that an external property-testing harness can
+// drive them without widening the visibility of any existing item.
+
+use std::collections::{HashMap, HashSet};
+use std::io::Write;
+use std::sync::{Mutex, OnceLock};
+use std::{path, sync};
+
+use crate::app;
+use crate::core::error::MonorailError;
+use crate::core::{self, graph};
+
+fn err_json(e: &MonorailError) -> String {
+    serde_json::to_string(e).unwrap_or_else(|_| e.to_string())
+}
+
+fn parse_config(config_json: &str) -> Result<core::Config, String> {
+    serde_json::from_str::<core::Config>(config_json)
+        .map_err(|e| err_json(&MonorailError::from(e)))
+}
+
+// `Index::new` with every target visible followed by `app::analyze::analyze`,
+// i.e. what `monorail analyze` does once it has obtained the list of changes.
+pub fn analyze(
+    config_json: &str,
+    changes: Option<Vec<String>>,
+    show_changes: bool,
+    show_change_targets: bool,
+    show_target_groups: bool,
+    work_path: &path::Path,
+) -> Result<String, String> {
+    let cfg = parse_config(config_json)?;
+    let ths = cfg.get_target_path_set();
+    let mut index = core::Index::new(&cfg, &ths, work_path).map_err(|e| err_json(&e))?;
+    let changes =
+        changes.map(|v| v.into_iter().map(|name| core::Change { name }).collect::<Vec<_>>());
+    let input =
+        app::analyze::AnalyzeInput::new(show_changes, show_change_targets, show_target_groups);
+    let out = app::analyze::analyze(&input, &mut index, changes).map_err(|e| err_json(&e))?;
+    serde_json::to_string(&out).map_err(|e| e.to_string())
+}
+
+// Build a Dag from a raw adjacency list, make the subtrees of `roots` visible and
+// return the labeled groups (dependencies first), as node numbers.
+pub fn dag_groups(
+    n: usize,
+    adj: &[Vec<usize>],
+    roots: &[usize],
+) -> Result<Vec<Vec<usize>>, String> {
+    let mut dag = graph::Dag::new(n);
+    for i in 0..n {
+        dag.set_label(&i.to_string(), i).map_err(|e| e.to_string())?;
+    }
+    for (i, nodes) in adj.iter().enumerate().take(n) {
+        dag.set(i, nodes.clone());
+    }
+    for r in roots {
+        dag.set_subtree_visibility(*r, true)
+            .map_err(|e| e.to_string())?;
+    }
+    let groups = dag.get_labeled_groups().map_err(|e| e.to_string())?;
+    let mut out = Vec::with_capacity(groups.len());
+    for g in groups {
+        let mut og = Vec::with_capacity(g.len());
+        for l in g {
+            og.push(l.parse::<usize>().map_err(|e| e.to_string())?);
+        }
+        out.push(og);
+    }
+    Ok(out)
+}
+
+// `Index::new` with the given visible targets followed by `get_labeled_groups`;
+// this is what `target show -g` and `run -t .. --deps` compute.
+pub fn index_groups(
+    config_json: &str,
+    visible: &[String],
+    work_path: &path::Path,
+) -> Result<Vec<Vec<String>>, String> {
+    let cfg = parse_config(config_json)?;
+    let vis: HashSet<&String> = visible.iter().collect();
+    let mut index = core::Index::new(&cfg, &vis, work_path).map_err(|e| err_json(&e))?;
+    index
+        .dag
+        .get_labeled_groups()
+        .map_err(|e| err_json(&MonorailError::from(e)))
+}
+
+// The dependency edges (from, to) of the graph `Index::new` builds. No target is
+// made visible, so this also works for cyclic configurations.
+pub fn index_edges(
+    config_json: &str,
+    work_path: &path::Path,
+) -> Result<Vec<(String, String)>, String> {
+    let cfg = parse_config(config_json)?;
+    let vis: HashSet<&String> = HashSet::new();
+    let index = core::Index::new(&cfg, &vis, work_path).map_err(|e| err_json(&e))?;
+    let mut out = vec![];
+    for (from, nodes) in index.dag.verif_adj_list().iter().enumerate() {
+        let from_label = index
+            .dag
+            .get_label_by_node(&from)
+            .map_err(|e| e.to_string())?;
+        for to in nodes {
+            let to_label = index.dag.get_label_by_node(to).map_err(|e| e.to_string())?;
+            out.push((from_label.clone(), to_label.clone()));
+        }
+    }
+    Ok(out)
+}
+
+#[derive(Debug, Clone)]
+pub enum Step {
+    Write(Vec<u8>),
+    PauseMs(u64),
+}
+
+// Wire in-memory byte streams through `log::process_reader` and one `Compressor`
+// the way `process_plan` does for the tasks of one target group: all files are
+// registered in order, the compressor runs on its own thread, every stream gets
+// its own reader loop, and the compressor is shut down client by client at the
+// end. The caller owns the tokio runtime (and therefore the clock).
+pub async fn capture(
+    specs: Vec<(path::PathBuf, Vec<Step>)>,
+    num_threads: usize,
+) -> Result<(), String> {
+    use tokio::io::AsyncWriteExt;
+
+    let mut compressor = app::log::Compressor::new(
+        num_threads,
+        sync::Arc::new(sync::atomic::AtomicBool::new(false)),
+    );
+    let mut clients = Vec::with_capacity(specs.len());
+    for (p, _) in specs.iter() {
+        clients.push(compressor.register(p).map_err(|e| err_json(&e))?);
+    }
+    let compressor_handle = std::thread::spawn(move || compressor.run());
+    let token = sync::Arc::new(tokio_util::sync::CancellationToken::new());
+
+    let mut js = tokio::task::JoinSet::new();
+    for (i, (_, steps)) in specs.into_iter().enumerate() {
+        let (mut wr, rd) = tokio::io::duplex(64 * 1024);
+        js.spawn(async move {
+            for s in steps {
+                match s {
+                    Step::Write(b) => {
+                        if wr.write_all(&b).await.is_err() {
+                            break;
+                        }
+                        let _ = wr.flush().await;
+                    }
+                    Step::PauseMs(ms) => {
+                        tokio::time::sleep(tokio::time::Duration::from_millis(ms)).await;
+                    }
+                }
+            }
+            drop(wr);
+            Ok::<(), String>(())
+        });
+        let client = clients[i].clone();
+        let header = app::log::get_header(&client.file_name, "verif", "verif", true);
+        let tok = token.clone();
+        js.spawn(async move {
+            app::log::process_reader(tokio::io::BufReader::new(rd), client, header, None, tok)
+                .await
+                .map_err(|e| err_json(&e))
+        });
+    }
+    let mut first_err = None;
+    while let Some(res) = js.join_next().await {
+        match res {
+            Ok(Ok(())) => {}
+            Ok(Err(e)) => {
+                first_err.get_or_insert(e);
+            }
+            Err(e) => {
+                first_err.get_or_insert(e.to_string());
+            }
+        }
+    }
+    for client in clients.iter() {
+        if let Err(e) = client.shutdown().await {
+            first_err.get_or_insert(err_json(&e));
+        }
+    }
+    match compressor_handle.join() {
+        Ok(Ok(())) => {}
+        Ok(Err(e)) => {
+            first_err.get_or_insert(err_json(&e));
+        }
+        Err(_) => {
+            first_err.get_or_insert("compressor thread panicked".to_string());
+        }
+    }
+    match first_err {
+        Some(e) => Err(e),
+        None => Ok(()),
+    }
+}
+
+#[repr(C)]
+struct Timespec {
+    tv_sec: i64,
+    tv_nsec: i64,
+}
+extern "C" {
+    fn clock_gettime(clk_id: i32, tp: *mut Timespec) -> i32;
+    fn kill(pid: i32, sig: i32) -> i32;
+}
+
+// CLOCK_MONOTONIC in nanoseconds; system-wide on Linux, so comparable across processes.
+pub fn monotonic_ns() -> u128 {
+    let mut ts = Timespec {
+        tv_sec: 0,
+        tv_nsec: 0,
+    };
+    unsafe {
+        clock_gettime(1, &mut ts);
+    }
+    (ts.tv_sec as u128) * 1_000_000_000 + ts.tv_nsec as u128
+}
+
+enum PointAction {
+    DelayMs(u64),
+    CrashAt(u64),
+}
+
+struct Points {
+    actions: HashMap<String, PointAction>,
+    log: Option<Mutex<std::fs::File>>,
+    hits: Mutex<HashMap<String, u64>>,
+}
+
+static POINTS: OnceLock<Points> = OnceLock::new();
+
+fn points() -> &'static Points {
+    POINTS.get_or_init(|| {
+        let mut actions = HashMap::new();
+        // MRV_POINTS="name=delay:50,other=crash@2"
+        if let Ok(spec) = std::env::var("MRV_POINTS") {
+            for item in spec.split(',') {
+                if let Some((name, act)) = item.split_once('=') {
+                    if let Some(ms) = act.strip_prefix("delay:") {
+                        if let Ok(ms) = ms.parse::<u64>() {
+                            actions.insert(name.to_string(), PointAction::DelayMs(ms));
+                        }
+                    } else if let Some(k) = act.strip_prefix("crash@") {
+                        if let Ok(k) = k.parse::<u64>() {
+                            actions.insert(name.to_string(), PointAction::CrashAt(k));
+                        }
+                    }
+                }
+            }
+        }
+        let log = std::env::var("MRV_POINT_LOG").ok().and_then(|p| {
+            std::fs::OpenOptions::new()
+                .create(true)
+                .append(true)
+                .open(p)
+                .ok()
+                .map(Mutex::new)
+        });
+        Points {
+            actions,
+            log,
+            hits: Mutex::new(HashMap::new()),
+        }
+    })
+}
+
+// A named point in the program. Does nothing unless the environment asks for a
+// log line (MRV_POINT_LOG), a delay or a crash (MRV_POINTS) at this point.
+pub fn point(name: &str) {
+    let pts = points();
+    if pts.log.is_none() && pts.actions.is_empty() {
+        return;
+    }
+    let hit = {
+        let mut hits = pts.hits.lock().unwrap();
+        let h = hits.entry(name.to_string()).or_insert(0);
+        *h += 1;
+        *h
+    };
+    if let Some(log) = &pts.log {
+        let line = format!("{} {} {} {}\n", std::process::id(), name, hit, monotonic_ns());
+        let mut f = log.lock().unwrap();
+        let _ = f.write_all(line.as_bytes());
+    }
+    match pts.actions.get(name) {
+        Some(PointAction::DelayMs(ms)) => {
+            std::thread::sleep(std::time::Duration::from_millis(*ms));
+        }
+        Some(PointAction::CrashAt(k)) => {
+            if hit == *k {
+                unsafe {
+                    kill(std::process::id() as i32, 9);
+                }
+                // SIGKILL is not synchronous with respect to this thread
+                loop {
+                    std::thread::sleep(std::time::Duration::from_secs(1));
+                }
+            }
+        }
+        None => {}
+    }
+}
+
+// Logs `lock.release` when dropped. Declared right after a lock guard so that it
+// is dropped right before it, on every return path.
+pub struct ReleaseGuard;
+impl Drop for ReleaseGuard {
+    fn drop(&mut self) {
+        point("lock.release");
+    }
+}
